@@ -335,7 +335,10 @@ impl HeapBuffer {
 
     unsafe fn allocation(&self) -> *mut u8 {
         unsafe {
-            if self.len.is_heap() {
+            // Whether the allocation starts with the length slot is a property of its layout, i.e.
+            // of the capacity it was allocated with - not of the current length, which may be
+            // small (and stored inline) in a buffer whose capacity needs the heap layout.
+            if is_len_heap_layout(self.header().capacity) {
                 cold_path();
                 self.ptr.as_ptr().cast::<u8>().sub(Self::header_offset()).sub(size_of::<usize>())
             } else {
